@@ -52,7 +52,7 @@ def run(chk, which="doc", pid_class="C05"):
             open(can, "w").write(json.dumps(v) + "\n")
             p = vlib.vh(["gram-replay", "--which", which], stdin_path=can)
             if b'"bad":true' not in p.stdout:
-                raise vlib.ToolError("canary (flipped membership) not rejected by the comparator")
+                chk.canary_failed.append("canary (flipped membership) not rejected by the comparator")
         os.remove(cases)
     chk.cov["traces_validated_against_impl"] += total
 
@@ -90,7 +90,7 @@ def run(chk, which="doc", pid_class="C05"):
                      on_json=lambda v: result2.append(v), timeout=600, xmx="2g")
             res2 = [v for v in result2 if v and v[0] == "RESULT"]
             if not res2 or res2[0][2] != [2]:
-                raise vlib.ToolError("canary (flipped recorded verdict) accepted by Trace_Grammar")
+                chk.canary_failed.append("canary (flipped recorded verdict) accepted by Trace_Grammar")
 
     bad_rows.sort(key=lambda r: (len(r["toks"]), r["toks"]))
     attribute_candidates(chk, bad_rows)
